@@ -4,8 +4,22 @@ import sys, json, binascii
 import pickle_fuzzer
 from pickle_fuzzer.fuzzer import PickleMutator
 
+def run_harness(seq):
+    # fuzz_pickle_parser() through the stub atheris: the parser callback collects what it is given
+    import atheris
+    from pickle_fuzzer.fuzzer import fuzz_pickle_parser
+    got = []
+    atheris.INPUTS = [binascii.unhexlify(c[1]) for c in seq["calls"]]
+    fuzz_pickle_parser(lambda b: got.append(bytes(b)), protocol=seq["ctor"]["protocol"], use_structure_aware=True)
+    out = [binascii.hexlify(b).decode() for b in got]
+    while len(out) < len(seq["calls"]):
+        out.append("ERR:parser was not called")
+    return out[:len(seq["calls"])]
+
 def run(seq):
     c = seq["ctor"]
+    if c["kind"] == "fuzz_pickle_parser":
+        return run_harness(seq)
     if c["kind"] == "PickleMutator":
         obj = PickleMutator(protocol=c["protocol"], seed=c["seed"])
         gen = obj.generator
